@@ -57,17 +57,24 @@ def run_scenario(item):
         general['idle_timeout'] = 300
     obs = []          # client-side observations / anomalies
     out = {'id': item['id'], 'obs': obs, 'cfg': {'mode': mode, 'pool_size': pool_size, 'ps_cache': ps_cache,
-                                                 'early': early_variant, 'mode_at': item.get('mode_at', 'pool')}}
+                                                 'early': early_variant, 'mode_at': item.get('mode_at', 'pool'),
+                                                 'named_host': bool(item.get('named_host'))}}
     with World('pc') as w:
         cancel_downs = []
         be = w.backend('p0', role='primary')
+        host = '127.0.0.1'
+        if item.get('named_host'):
+            # the server is configured by name and the pooler's DNS cache is on: connections also carry the addresses
+            # the name resolved to, and are dropped when those change (they do not, here)
+            host = 'localhost'
+            general['dns_cache_enabled'] = True
         if item.get('mode_at') == 'user':
             # the pool mode is given for the user and contradicts the pool-level setting: the user's one counts
             user_extra['pool_mode'] = mode
-            pool = simple_pool([['127.0.0.1', be.port, 'primary']], pool_size=pool_size,
+            pool = simple_pool([[host, be.port, 'primary']], pool_size=pool_size,
                                mode='session' if mode == 'transaction' else 'transaction', user=user_extra)
         else:
-            pool = simple_pool([['127.0.0.1', be.port, 'primary']], pool_size=pool_size, mode=mode, user=user_extra)
+            pool = simple_pool([[host, be.port, 'primary']], pool_size=pool_size, mode=mode, user=user_extra)
         if ps_cache:
             pool['prepared_statements_cache_size'] = ps_cache
         w.start(general=general, pools={'db': pool})
